@@ -223,8 +223,17 @@ def depends_on_degraded(pid, unit_results):
     base = load_json(BASELINE, {}).get(pid, {})
     out = []
     for u, res in unit_results.items():
-        deg = getattr(res, "degraded", {})
-        if not deg or res.refused or res.compile_error:
+        deg = dict(getattr(res, "degraded", {}))
+        if res.refused or res.compile_error:
+            continue
+        # a function with a failed obligation that carries no tag (a support clause of its contract, a hint, a
+        # resource limit) is as unreliable for its callers as a degraded one
+        for d in res.diags:
+            if d.get("kind") in ("verification", "rlimit") and not d.get("tags"):
+                it = item_of_line(res, d.get("primary_line") or 0)
+                if it is not None and it["kind"] == "fn" and it["name"] not in deg:
+                    deg[it["name"]] = "an obligation without tag failed in it: %s" % d["message"][:80]
+        if not deg:
             continue
         fns = [it for it in res.items if it["kind"] == "fn" and it["unit_lines"] != [0, 0] and it.get("out_name")]
         text = {}
@@ -261,7 +270,7 @@ def depends_on_degraded(pid, unit_results):
                 if h.startswith(u + ":"):
                     homes.add(h.split(":", 1)[1])
         for fn in sorted(homes & (affected - set(deg))):
-            out.append("%s:%s is verified against the contract of a function that could not be extracted in this run (%s)" % (u, fn, ", ".join(sorted(deg))[:200]))
+            out.append("%s:%s is verified against the contract of a function that was not verified in this run (%s)" % (u, fn, "; ".join("%s: %s" % (k, v[:70]) for k, v in sorted(deg.items()))[:300]))
     return out
 
 
